@@ -663,6 +663,9 @@ struct psTls13SessionParams
     uint32_t ticketAgeAdd;
     uint32_t ticketLifetime;
     uint32_t maxEarlyData;
+    unsigned char clientAuth; /* The session this ticket continues was made
+                                 on a connection that demanded client
+                                 authentication */
 };
 
 #  define TLS_1_3_TICKET_LIFETIME 360 /* Seconds */
@@ -1072,6 +1075,8 @@ typedef struct
     unsigned char majVer;
     unsigned char minVer;
     short extendedMasterSecret;           /* was the extension used? */
+    short clientAuth;                     /* established on a connection that
+                                             demanded client authentication */
     short pending;                        /* registered in ServerHello, but the
                                              client's Finished of that handshake
                                              has not been verified yet: must not
